@@ -48,5 +48,5 @@ class OuterProduct(LinearOperator):
             res = np.multiply.outer(self._field.val, x.val)
         else:
             axes = len(self._field.shape)
-            res = np.tensordot(self._field.val, x.val, axes)
+            res = np.tensordot(self._field.val.conj(), x.val, axes)
         return Field(self._tgt(mode), res)
